@@ -293,6 +293,8 @@ def run(ctx, rep):
     check_inplace(ctx, rep)
     check_foreign_private_stores(ctx, rep)
     check_registration_listens(ctx, rep)
+    from sa import purity as _pur
+    _pur.check_shared_class_containers(ctx, rep, 'C11.M', only=lambda m_: not m_.name.startswith('torchtree.cli'))
     check_optimizer(ctx, rep)
     check_transform_cache(ctx, rep)
     check_memo_keys(ctx, rep)
@@ -674,6 +676,19 @@ def check_memo_keys(ctx, rep, rule='C11.M', only=None):
                         for st in stores:
                             deps = sorted({self_attr(x.value) for e in backward_slice(st.value, defs) for x in ast.walk(e)
                                            if isinstance(x, ast.Attribute) and x.attr == 'tensor' and self_attr(x.value)})
+                            if not deps and ci_ is not None:
+                                # `self.m()` whose implementations (in the class or its subclasses) read parameter tensors: self.distribution() -> Dist(self.theta.tensor, …)
+                                for e in backward_slice(st.value, defs):
+                                    for x in ast.walk(e):
+                                        if isinstance(x, ast.Call) and self_attr(x.func) and not x.args:
+                                            impls = []
+                                            for k_ in [ci_] + ctx.classes.subclasses(ci_.qualname, strict=True):
+                                                r_ = k_.resolve(x.func.attr)
+                                                if r_ is not None and all(r_[1] is not i_ for i_ in impls):
+                                                    impls.append(r_[1])
+                                            for f_ in impls:
+                                                deps += sorted({self_attr(y.value) for y in ast.walk(f_) if isinstance(y, ast.Attribute) and y.attr == 'tensor' and self_attr(y.value)})
+                                deps = sorted(set(deps))
                             if not deps:
                                 # `[p.tensor for p in self.<collection>.values()]`: tensors of the parameters held in a collection of the object
                                 for e in backward_slice(st.value, defs):
